@@ -134,7 +134,7 @@ def run(tier, seed):
     states += g.distinct
     trans += g.generated
     sel = [b for b in g.beh if not b["err"] and b["hist"]]
-    sel = sel if thorough else rnd.sample(sel, min(len(sel), 300))
+    sel = sel if thorough else c04.stratified(sel, rnd, 400)
     for b in sel:
         inputs.append(("registry", R.render(b["hist"], seed)[0], {}, []))
     g = EF.mc(EF.consts(WithHist="TRUE", MaxOpts=2, MaxStmts=2, Kinds=E.tla_kinds(E.CATALOG), groups=["start", "cache", "order"]), "entities")
